@@ -828,3 +828,80 @@ func TestWitness_C07_SixtyFifthQueryDoesNotDeadlock(t *testing.T) {
 		t.Fatal("world locked after the second round")
 	}
 }
+
+// C09: "for a batch operation all removal callbacks run before any entity of the batch is changed and
+// all other callbacks after all of them are changed" - for relation batches over several tables, too.
+// Before the repair setRelationsBatch fired OnRemoveRelations / OnAddRelations table by table (the source
+// carried a TODO): the removal callback of the second table saw the first table's entities already
+// re-targeted, and the add callback of the first table saw the second table's entities not yet changed.
+func TestWitness_C09_SetRelationsBatchEventOrder(t *testing.T) {
+	w := ecs.NewWorld(4, 2)
+	m := ecs.NewMap1[rel1](w)
+	a, b, c := w.NewEntity(), w.NewEntity(), w.NewEntity()
+	var kids []ecs.Entity
+	for i := 0; i < 2; i++ {
+		kids = append(kids, m.NewEntity(&rel1{V: int64(i)}, ecs.RelIdx(0, a)))
+	}
+	for i := 2; i < 5; i++ {
+		kids = append(kids, m.NewEntity(&rel1{V: int64(i)}, ecs.RelIdx(0, b)))
+	}
+	old := map[ecs.Entity]ecs.Entity{}
+	for _, k := range kids {
+		old[k] = m.GetRelation(k, 0)
+	}
+	removes, adds := 0, 0
+	ecs.Observe(ecs.OnRemoveRelations).Do(func(e ecs.Entity) {
+		removes++
+		if adds != 0 {
+			t.Errorf("removal callback for %v after an add callback", e)
+		}
+		for _, k := range kids {
+			if got := m.GetRelation(k, 0); got != old[k] {
+				t.Errorf("removal callback for %v: batch member %v already has target %v (was %v)", e, k, got, old[k])
+			}
+		}
+		if !w.IsLocked() {
+			t.Errorf("world not locked in a batch callback")
+		}
+	}).Register(w)
+	ecs.Observe(ecs.OnAddRelations).Do(func(e ecs.Entity) {
+		adds++
+		if removes != len(kids) {
+			t.Errorf("add callback for %v after only %d of %d removal callbacks", e, removes, len(kids))
+		}
+		for _, k := range kids {
+			if got := m.GetRelation(k, 0); got != c {
+				t.Errorf("add callback for %v: batch member %v still has target %v", e, k, got)
+			}
+		}
+	}).Register(w)
+	cb := 0
+	m.SetRelationsBatch(ecs.NewFilter1[rel1](w).Batch(), func(e ecs.Entity) { cb++ }, ecs.RelIdx(0, c))
+	if removes != len(kids) || adds != len(kids) || cb != len(kids) {
+		t.Fatalf("removal callbacks %d, add callbacks %d, batch callbacks %d, want %d each", removes, adds, cb, len(kids))
+	}
+	for i, k := range kids {
+		if m.GetRelation(k, 0) != c || m.Get(k).V != int64(i) {
+			t.Fatalf("entity %v: target %v value %d", k, m.GetRelation(k, 0), m.Get(k).V)
+		}
+	}
+	if w.IsLocked() {
+		t.Fatal("world locked after the batch")
+	}
+	// a batch rejected for one of its tables changes none of them (it used to change the earlier ones)
+	w2 := ecs.NewWorld(4, 2)
+	idR1, idR2 := ecs.ComponentID[rel1](w2), ecs.ComponentID[rel2](w2)
+	u := w2.Unsafe()
+	x, y, z := w2.NewEntity(), w2.NewEntity(), w2.NewEntity()
+	e1 := u.NewEntityRel([]ecs.ID{idR1}, ecs.RelID(idR1, x))
+	e2 := u.NewEntityRel([]ecs.ID{idR1}, ecs.RelID(idR1, y))
+	w2.RemoveEntity(z)
+	func() {
+		defer func() { _ = recover() }()
+		ecs.NewMap1[rel1](w2).SetRelationsBatch(ecs.NewFilter1[rel1](w2).Batch(), nil, ecs.RelIdx(0, z)) // dead target
+	}()
+	_ = idR2
+	if u.GetRelation(e1, idR1) != x || u.GetRelation(e2, idR1) != y || w2.IsLocked() {
+		t.Fatalf("rejected relation batch changed targets: %v %v locked=%v", u.GetRelation(e1, idR1), u.GetRelation(e2, idR1), w2.IsLocked())
+	}
+}
